@@ -73,7 +73,9 @@ def run_C02(tier, seed):
                   "through RawValue::get() and the typed accessors. Non-trivial = >= 1 entry and (>= 2 properties or a variant). Distinct = "
                   "hash(schema shape, column kinds and value classes, entry-count class, window shapes).",
                   assumptions=["values are derived from (case seed, store, column, entry number) by the harness generator",
-                               "the expected final order of an unsorted store is the insertion order"])
+                               "the expected final order of an unsorted store is the insertion order",
+                               "thorough: 96 cases of the quick set are also run under an AddressSanitizer build (the readers of value "
+                               "store offsets and cluster offsets fill vectors through set_len)"], extra=asan_extra("C02", 96))
 
 
 def run_C03(tier, seed):
